@@ -17,7 +17,11 @@ def run(tier, seed):
     R = C.Report(CID, tier, seed)
     rng = C.rng_for(seed, CID)
     quick = tier == 'quick'
+    ok_tr, tr_msg = T.regen_gen()
     P = R.proof_stage()
+    if not ok_tr:
+        P['ok'] = False
+        P['log'] = 'translator failed closed: ' + tr_msg
     tie = T.Tie(R)
     if not tie.ready:
         R.violation('tie-build-failed', 'could not build model or Rust harness',
@@ -91,6 +95,7 @@ def run(tier, seed):
     R.assumptions = ['validity = truth in every model under every semantic valuation of opaque nodes (metavariables, general-plug ESubst) '
                      'respecting their judged freshness; the finite-model search uses constant atoms']
     return R.finish(trusted_base=C.TRUSTED_COMMON + [
+        'translators/rust_judge.py, rust_subst.py, opcodes.py (Rust-subset readers that regenerate coq/Gen/*.v from lib.rs every run; fail closed)',
         'Axiom Classical_Prop.classic (Coq standard library; used only for Prop3, double-negation elimination over sets D -> Prop)',
         'harness/rust/harness.rs (appended to a scratch copy of lib.rs: request parser and state printer) and harness/rust/main.rs',
         'semantics: coq/ML/Sem.v is the standard matching-logic semantics written by hand (eval); metavariables as semantic atoms'])
